@@ -66,11 +66,43 @@ PrepOutputs(st, q) ==          \* q : 0-based qubit = position in outs
                         st3 == IF p # 0 THEN [st2 EXCEPT !.c = PushFront(@, ExGate("ZPhase", <<q>>, p)), !.g = SetPh(st2.g, v, 0)] ELSE st2
                     IN PrepOutputs(PrepNbrs(st3, q, v, o, SetToSortSeq(Nbrs(st3.g, v), <)), q + 1)
 Prepare(g, c) == PrepOutputs([g |-> g, c |-> c, fr |-> <<>>, err |-> FALSE], 0)
+\* The code visits the neighbours of a frontier vertex in the backend's storage order, and whether an input is
+\* padded (Deg(v) > 2 when the input is met) depends on how many edges to other frontier vertices were already
+\* turned into CZ gates.  PrepareSet is the set of results over the orders that matter: the other neighbours
+\* in increasing order, the input neighbour(s) inserted at any position.  Prepare(g, c) \in PrepareSet(g, c).
+NbrOrders(g, v) ==
+  LET nb == Nbrs(g, v)
+      inp == {x \in nb : g.ty[x] = "B" /\ InSeqV(g.ins, x)}
+      rest == SetToSortSeq(nb \ inp, <)
+      inps == SetToSortSeq(inp, <)
+  IN IF inp = {} THEN {rest} ELSE {SubSeq(rest, 1, k) \o inps \o SubSeq(rest, k + 1, Len(rest)) : k \in 0..Len(rest)}
+PrepOneSet(st, q) ==        \* the results of processing output q from state st
+  IF st.err THEN {st}
+  ELSE LET g == st.g
+           o == g.outs[q + 1] IN
+       IF Nbrs(g, o) = {} THEN {[st EXCEPT !.err = TRUE]}
+       ELSE LET v == CHOOSE u \in Nbrs(g, o) : TRUE
+                et == ET(g, o, v)
+                st1 == IF et = "H" THEN [st EXCEPT !.c = PushFront(@, ExGate("HAD", <<q>>, 0)), !.g = SetET(g, v, o, "N")] ELSE st
+            IN IF st1.g.ty[v] = "B" THEN {st1}
+               ELSE LET st2 == [st1 EXCEPT !.fr = Append(@, <<q, v>>)]
+                        p == st2.g.ph[v]
+                        st3 == IF p # 0 THEN [st2 EXCEPT !.c = PushFront(@, ExGate("ZPhase", <<q>>, p)), !.g = SetPh(st2.g, v, 0)] ELSE st2
+                    IN {PrepNbrs(st3, q, v, o, ord) : ord \in NbrOrders(st3.g, v)}
+RECURSIVE PrepSetFrom(_, _, _)
+PrepSetFrom(S, q, nq) == IF q >= nq THEN S ELSE PrepSetFrom(UNION {PrepOneSet(st, q) : st \in S}, q + 1, nq)
+PrepareSet(g, c) == PrepSetFrom({[g |-> g, c |-> c, fr |-> <<>>, err |-> FALSE]}, 0, Len(g.outs))
 
 \* ---------- gadgets ----------
 InitGadgets(g) == {n \in g.vs : \E v \in Nbrs(g, n) : Deg(g, v) = 1 /\ g.ty[v] = "Z" /\ g.ty[n] = "Z"}
 \* the frontier vertex / gadget pairs fix_gadgets may pivot (it takes the first in storage order)
 GadgetPairs(g, fr, gadgets) == {<<v, n>> \in FrontierVs(fr) \X gadgets : HasE(g, v, n)}
+
+\* ---------- extract_from_frontier: remove_id on every frontier vertex, in frontier order ----------
+RECURSIVE ExtractAll(_, _)
+ExtractAll(h, vs) == IF vs = <<>> THEN h
+                     ELSE IF Exists(h, Head(vs)) /\ CheckRemId(h, Head(vs)) THEN ExtractAll(ApplyRemId(h, Head(vs)).g, Tail(vs))
+                     ELSE ExtractAll(h, Tail(vs))
 
 \* ---------- frontier biadjacency and Gauss-Jordan elimination over F2 ----------
 FNbrs(g, fr) == SetToSortSeq(UNION {{n \in Nbrs(g, v) : g.ty[n] = "Z"} : v \in FrontierVs(fr)}, <)
@@ -103,6 +135,37 @@ SetBiadj(g, fr, cols, M) ==
       keep == {e \in DOMAIN g.et : ~(\E p \in pairs : e = {fr[p[1]][2], cols[p[2]]})}
       add == {{fr[p[1]][2], cols[p[2]]} : p \in {p \in pairs : M[p[1]][p[2]] = 1}}
   IN [g EXCEPT !.et = [e \in keep \cup add |-> IF e \in add THEN "H" ELSE g.et[e]]]
+
+\* ---------- single_sln_set (extract.rs:174-249), the default of the gflow extractor ----------
+\* Reduce a copy of the biadjacency matrix while recording the row operations in T (T * M = RREF(M));
+\* a row of the reduced matrix with exactly one 1 is an extractable vertex, the support of the same
+\* row of T is its solution set: adding all rows of the solution set onto one of them (the target)
+\* leaves a frontier vertex with a single neighbour.  The code takes the extractable row with the
+\* smallest solution set (the last one among ties) and the first element as target; the
+\* specification allows ANY extractable row and ANY target of its solution set - every choice
+\* must keep ExtInv and make progress - so the code's choice is one of the spec's behaviours.
+IdentM(n) == [i \in 1..n |-> [j \in 1..n |-> IF i = j THEN 1 ELSE 0]]
+RECURSIVE ApplyOps(_, _)
+ApplyOps(M, ops) == IF ops = <<>> THEN M
+                    ELSE LET o == Head(ops) IN
+                         ApplyOps(IF o[1] = "add" THEN MRowAdd(M, o[2], o[3]) ELSE MRowSwap(M, o[2], o[3]), Tail(ops))
+Support(row) == {j \in 1..Len(row) : row[j] = 1}
+\* the set of <<row of the reduced matrix, solution set, target>> the step may use
+SlnChoices(M) ==
+  LET r == GJ(M, <<>>, 1, 1)
+      T == ApplyOps(IdentM(Len(M)), r.ops)
+      extr == {i \in 1..Len(M) : Cardinality(Support(r.m[i])) = 1}
+  IN UNION {{<<i, Support(T[i]), t>> : t \in Support(T[i])} : i \in extr}
+\* the code's own choice: smallest solution set, last among ties; target = smallest index
+SlnCodeChoice(M) ==
+  LET r == GJ(M, <<>>, 1, 1)
+      T == ApplyOps(IdentM(Len(M)), r.ops)
+      extr == {i \in 1..Len(M) : Cardinality(Support(r.m[i])) = 1}
+      w(i) == Cardinality(Support(T[i]))
+  IN IF extr = {} THEN {}
+     ELSE LET best == CHOOSE i \in extr : \A k \in extr : w(i) < w(k) \/ (w(i) = w(k) /\ i >= k)
+          IN {<<best, Support(T[best]), Min(Support(T[best]))>>}
+SlnOps(sln, t) == LET others == SetToSortSeq(sln \ {t}, <) IN [k \in 1..Len(others) |-> <<"add", others[k], t>>]
 
 \* ---------- final permutation ----------
 WirePerm(g) == [i \in 1..Len(g.outs) |-> CHOOSE j \in 1..Len(g.ins) : HasE(g, g.outs[i], g.ins[j])]
